@@ -97,6 +97,8 @@ def gen_workload(tape):
     w["exclude_via"] = tape.pick(["ctor", "methods"], "exvia")
     w["path_setter"] = tape.choice(1 + len(C1.DECOYS), "path_setter") \
         if tape.flag("via_path_setter", 1, 5) else 0
+    w["relative_cwd"] = tape.flag("relative_cwd", 1, 3)     # local backend only
+    w["junk"] = tape.choice(4, "junk") if tape.flag("junk_entries", 1, 4) else 0
     # two caller threads share the FileSet (see props/c01.py)
     w["two_callers"] = w["backend"] == "sim" and tape.flag("two_callers", 1, 6)
     w["line_stride"] = 7 + tape.choice(40, "linestride") if w["two_callers"] else 0
@@ -323,6 +325,7 @@ def run_one(tape, only=None):
             warnings.simplefilter("ignore")
             run.run()
     finally:
+        os.chdir("/")           # the working directory is process state, too
         shutil.rmtree(scratch, ignore_errors=True)
     seen, uniq = set(), []
     for v in run.V:
